@@ -138,3 +138,11 @@ check("C15", "exploration",
       "enumerated.", TRUST + " The external dispatcher is a stub following rel's documented contract.",
       "deterministic simulation: connection-fault sequences in virtual time (minute-long back-offs cost microseconds), seeded scheduler, network-log oracle",
       "DESIGN.md section 6 C15")
+check("C17", "exploration",
+      "Arbitrary server bytes in the handshake phase and in the frame phase (uniform random, grammar-based single-field "
+      "corruptions, bit-flipped valid traffic, all byte strings of length <=1 / <=2) followed by end of stream or "
+      "silence. Oracle: only WebSocketException subclasses or transport OSErrors leave connect/recv; returned values agree "
+      "with the reference decoder; per-call line-event step budget proportional to bytes consumed and no deadlock; largest "
+      "bufsize ever passed to the simulated socket <= 65536.", TRUST,
+      "deterministic simulation: seeded + grammar-based + short-exhaustive hostile peers with eof/silence faults, exception-class / step-budget / recv-size oracle",
+      "DESIGN.md section 6 C17")
